@@ -52,6 +52,47 @@ macro_rules! iis {
     };
 }
 
+const LUA_KEYWORDS: &[&str] = &[
+    "and", "break", "do", "else", "elseif", "end", "false", "for", "function", "goto", "if", "in",
+    "local", "nil", "not", "or", "repeat", "return", "then", "true", "until", "while",
+];
+
+/// A string literal that the Lua lexer reads back as exactly `s`.
+fn lua_string(s: &str) -> String {
+    let mut out = String::with_capacity(s.len() + 2);
+    out.push('"');
+    for c in s.chars() {
+        match c {
+            '\\' => out.push_str("\\\\"),
+            '"' => out.push_str("\\\""),
+            '\n' => out.push_str("\\n"),
+            '\r' => out.push_str("\\r"),
+            '\0' => out.push_str("\\000"),
+            c => out.push(c),
+        }
+    }
+    out.push('"');
+    out
+}
+
+/// `.field`, or `["field"]` when the field name is a reserved word in Lua.
+fn lua_field(name: &str) -> String {
+    if LUA_KEYWORDS.contains(&name) {
+        format!("[{}]", lua_string(name))
+    } else {
+        format!(".{}", name)
+    }
+}
+
+/// A key in a table constructor.
+fn lua_key(name: &str) -> String {
+    if LUA_KEYWORDS.contains(&name) {
+        format!("[{}]", lua_string(name))
+    } else {
+        name.to_string()
+    }
+}
+
 struct Generator<'a, 'b> {
     usage_count: &'a HashMap<Var, usize>,
     out: &'b mut dyn Write,
@@ -115,7 +156,8 @@ impl<'a, 'b> Generator<'a, 'b> {
 
                 IR::Neg(t, a) => ii!(self, t, "(-{})", a),
 
-                IR::Str(t, s) => iis!(self, t, "\"{}\"", s),
+                IR::Str(t, s) => iis!(self, t, "{}", lua_string(s)),
+                IR::Float(t, f) if f.is_infinite() => iis!(self, t, "math.huge"),
                 IR::Float(t, f) => iis!(self, t, "{:?}", f),
 
                 IR::Equals(t, a, b) => ii!(self, t, "({} == {})", a, b),
@@ -135,7 +177,7 @@ impl<'a, 'b> Generator<'a, 'b> {
                     "__BLOB{{ {} }}",
                     fields
                         .iter()
-                        .map(|(f, v)| format!("{} = {}", f, self.expand(v)))
+                        .map(|(f, v)| format!("{} = {}", lua_key(f), self.expand(v)))
                         .collect::<Vec<_>>()
                         .join(", ")
                 ),
@@ -222,15 +264,17 @@ impl<'a, 'b> Generator<'a, 'b> {
                     write!(self.out, "break");
                 }
                 IR::Return(t) => {
-                    write!(self.out, "return ");
+                    // `return` has to be the last statement of a Lua block, `ret` does not.
+                    write!(self.out, "do return ");
                     let t = self.expand(t).to_string();
                     write!(self.out, "{}", t);
+                    write!(self.out, " end");
                 }
                 IR::HaltAndCatchFire(msg) => {
                     write!(self.out, "__CRASH(\"{}\")()", msg);
                 }
 
-                IR::Access(t, a, f) => iis!(self, t, "{}.{}", self.expand(a), f),
+                IR::Access(t, a, f) => iis!(self, t, "{}{}", self.expand(a), lua_field(f)),
 
                 IR::Copy(t, a) => {
                     if self.usage_count.get(t).unwrap_or(&0) > &0 {
@@ -260,7 +304,7 @@ impl<'a, 'b> Generator<'a, 'b> {
                     if self.usage_count.get(t).unwrap_or(&0) > &0 {
                         let t = self.expand(t);
                         let c = self.expand(c);
-                        write!(self.out, "{}.{} = {}", t, f, c);
+                        write!(self.out, "{}{} = {}", t, lua_field(f), c);
                     }
                 }
 
